@@ -321,6 +321,7 @@ CHECKS = {
             C('opts', 'TestOptions', 'TraceOptions', trivial_len=5, vtimeout=3000),
             C('optresize', 'TestOptResize', 'TraceOptions', trivial_len=0),
             C('surveyor', 'TestSurveyor', 'TraceSurveyor', n={'quick': 20, 'thorough': 300}, env={'VERIF_MIX': 'deadline'}),
+            C('sub', 'TestSub', 'TraceSub', n={'quick': 40, 'thorough': 400}),
         ],
         'rule': 'one trace per object group (a socket of each of the 19 protocols; socket + context of the 5 patterns with contexts; per transport a '
                 'listener and dialer before connecting, a pipe, and dialer / listener after connecting); within it every option name x 18 value classes; '
@@ -351,6 +352,8 @@ CHECKS = {
             R('xpair', 'xpair'), R('pair', 'xpair'), R('xpair1', 'xpair1'), R('pair1', 'xpair1'),
             R('xpush', 'xpush'), R('push', 'xpush'), R('xpull', 'xpull'), R('pull', 'xpull'),
             {'type': 'custom', 'name': 'pushsq0', 'fn': push_sq0},
+            T('MC_Chain', 'Chain_oneway.cfg', workers=8, tiers=('thorough',)),
+            C('chain', 'TestChain', 'TraceChain', trivial_len=3),
         ],
         'assumptions': ASSUME_COMMON,
     },
@@ -359,6 +362,8 @@ CHECKS = {
         'jobs': [
             T('MC_RawSock', 'Raw_xbus.cfg'), T('MC_RawSock', 'Raw_xstar.cfg'),
             R('xbus', 'xbus'), R('bus', 'xbus'), R('xstar', 'xstar'), R('star', 'xstar'),
+            T('MC_Mesh', 'Mesh_star.cfg', workers=8), T('MC_Mesh', 'Mesh_bus.cfg', workers=4),
+            C('mesh', 'TestMesh', 'TraceMesh', trivial_len=3, n={'quick': 1, 'thorough': 6}),
         ],
         'assumptions': ASSUME_COMMON,
     },
@@ -394,6 +399,8 @@ CHECKS = {
             C('respondent', 'TestRespondent', 'TraceRespondent', n={'quick': 100, 'thorough': 1200}),
             T('MC_RawSock', 'Raw_xrep.cfg'), T('MC_RawSock', 'Raw_xrespondent.cfg'),
             R('xrep', 'xrep'), R('xrespondent', 'xrespondent'),
+            T('MC_Chain', 'Chain_twoway.cfg', workers=8), T('MC_Chain', 'Chain_ring.cfg', workers=8),
+            C('chain', 'TestChain', 'TraceChain', trivial_len=3),
         ],
         'assumptions': ASSUME_COMMON,
     },
@@ -424,6 +431,8 @@ CHECKS = {
             T('MC_Hops', 'Hops_quick.cfg', workers=4),
             T('MC_Hops', 'Hops_full.cfg', workers=4, tiers=('thorough',), timeout=3000),
             C('hops', 'TestHops', 'TraceHops', trivial_len=3, vtimeout=3000),
+            T('MC_Chain', 'Chain_twoway.cfg', workers=8), T('MC_Chain', 'Chain_ring.cfg', workers=8),
+            C('chain', 'TestChain', 'TraceChain', trivial_len=3),
         ],
         'rule': 'one injected message per (receiver, TTL, position of the terminating word or hop byte, number of complete '
                 'words available); the eight receivers are REP, XREP, RESPONDENT, XRESPONDENT, PAIR1, XPAIR1, STAR, XSTAR; '
